@@ -34,6 +34,12 @@ CHECKS = {
  "C08": dict(technique="Coq proof: flush effect theorem over the RIB model under the reachable-state invariant + regenerated checkFlushRequest proved equal to the decision table + correspondence via vm_compute",
              text="Theorems: checkFlushRequest (regenerated from server.go each run) equals the declarative table for all 128-bit ids; a rejected Flush changes nothing; an authorised one answers OK, empties exactly the selected instances, leaves other instances, held operations and election state alone and preserves the counter invariant, for any contents incl. shared/missing/cyclic backup groups. Tied to /repo by differential scripts over the decision table and RIB shapes.",
              ref="DESIGN.md 4/C08", note=TB),
+ "C13": dict(technique="Coq proof: accounting invariants over a sequential model of the client queues for all event sequences + correspondence via vm_compute",
+             text="Theorems for all event sequences with distinct queued ids and all server behaviours: conservation (queued / pending / exactly one terminal result), result matches the queued op, AwaitConverged success iff nothing queued or pending and no error, RIB ack not terminal in FIB mode, protocol violations surface. Model tied to client/gribiclient.go by running the real client over bufconn against a scripted stub server.",
+             ref="DESIGN.md 4/C13", note=TB + " Interleavings inside one event are C14's subject."),
+ "C14": dict(technique="Coq proof: LTS of the client's goroutine protocol (App/Sender/Receiver/Waiter/Closer, modifyCh, awaiting RW-lock with writer preference) with invariant + decreasing measure + progress for all n, k, schedules; fault injection on the real client",
+             text="Theorems (model of the goroutine protocol written in gribigo, parametric in burst size and fault index, all schedules): no deadlock, all runs terminate, terminal states clean (Q/Await/Close/Reset returned, no sender/receiver left, fresh after Reset), Await never reports success after a fault. PARTIAL: Go scheduler, sync.RWMutex and gRPC are modelled, not verified; the runtime half is fault injection at every message index on the real client with watchdogs and a goroutine census.",
+             ref="DESIGN.md 4/C14", note=TB + " Partial: goroutine scheduling, RWMutex writer preference and gRPC stream semantics are assumptions of the LTS."),
 }
 NA = []
 m = {"version": 1,
